@@ -286,8 +286,8 @@ def LSt.closeQuery (st : LSt) (q : QSt) : LSt :=
 
 /-- the whole list parse as one pass over the tokens. `fromText`: the tokens come from the module-level
 tokenizer on a string (stand-alone list) and not from a token list (`@media`, `@import`).
-`strict = false` is the code as it is; `strict = true` is the code with the proposed repair of known finding
-C17-missing-handback (a `Missing` error is an error also when `stopIfNoMoreMatch` is set). -/
+`strict = true` is the code as it is (since the repair of C17-missing-handback, `prodparser.py:589-596`: a `Missing`
+error is an error also when `stopIfNoMoreMatch` is set); `strict = false` is the parser as it was before. -/
 def parseL (strict fromText : Bool) : LSt → List Tok → POut (List LItem)
   | st, [] =>
     match st.cur with
@@ -394,7 +394,7 @@ def seqIndex : List LItem → Nat → Option Nat
 
 /-- `MediaList._setMediaText` (`medialist.py:77-152`); `raising` = `cssutils.log.raiseExceptions` -/
 def ML.setMediaText (m : ML) (raising fromText : Bool) (toks : List Tok) : ML × Outcome Unit :=
-  match parseL false fromText {} toks with
+  match parseL true fromText {} toks with
   | .unsupported => (m, .unsupported)
   | .bad =>
     -- an error was reported inside the parse: raised before `_wellformed` is assigned, or only logged
